@@ -348,7 +348,14 @@ class SymInt:
         return int_to_bytes(self, length, byteorder, signed)
 
     def bit_length(self):
-        raise Unsupported("bit_length of symbolic int")
+        # number of bits of |x|: complete case split over the (at most 129) possible answers
+        c = ctx()
+        a = z3.If(self.term >= 0, self.term, -self.term)
+        conds = [a == 0] + [z3.And(a >= (1 << (k - 1)), a < (1 << k)) for k in range(1, 129)] + [a >= (1 << 128)]
+        k = c.case(conds, "bit_length")
+        if k == 129:
+            raise Unsupported("bit_length of an integer beyond 128 bits")
+        return k
 
 
 def int_to_bytes(v, length, byteorder, signed):
